@@ -168,16 +168,16 @@ func accessorsOp(c *Ctx, line string) {
 					ans = "panic"
 				}
 			}()
-			var dest []*json.RawMessage
+			var dest []json.RawMessage
 			if err := rueidis.DecodeSliceOfJSON(rueidis.NewResult(n.msg(), e), &dest); err != nil {
 				return errClass(err)
 			}
 			parts := make([]string, len(dest))
 			for i, d := range dest {
-				if d == nil {
+				if d == nil { // zero value: the element was a Redis nil and was skipped
 					parts[i] = "N"
 				} else {
-					parts[i] = "j" + hx(string(*d))
+					parts[i] = "j" + hx(string(d))
 				}
 			}
 			return "ok [" + strings.Join(parts, ",") + "]"
